@@ -57,7 +57,35 @@ RULE = ("fault enumeration on packets sealed by the harness's own MTProto 1.0 se
         "lines; every line is also run through the Lean model and compared (outcome class incl. error kind and panic site)")
 
 
+OPS_MARK = " ##OPS##"
+
+
+def _sequence_replays(ctx):
+    """A message that changed after it was handed out is reported in the result line of the operation after which the
+    change was seen; the operations a replay needs (the one that handed the message out, those in between, this one)
+    travel in the complaint behind OPS_MARK (harness/cmd/vh/c04hold.go). They become the replay's operation list."""
+    import json
+    inner = ctx.report_failing_input
+
+    def report(v, source):
+        why = v.get("why", "")
+        if OPS_MARK in why:
+            v = dict(v)
+            why, _, ops = why.partition(OPS_MARK)
+            v["why"] = why
+            try:
+                ops = json.loads(ops)
+                if isinstance(ops, list) and ops and all(isinstance(o, str) for o in ops):
+                    v["ops"] = ops
+            except ValueError:
+                pass
+        return inner(v, source)
+
+    ctx.report_failing_input = report
+
+
 def run(ctx):
+    _sequence_replays(ctx)
     ctx.assumptions += [
         "SHA-1 and AES-256-IGE are parameters of the theorems (hypotheses Prims.Ok); 'a forger without the key cannot produce an "
         "accepted packet' is cryptographic and NOT a theorem: the theorems show the acceptance set equals the image of the "
